@@ -3,8 +3,8 @@
 EXTENDS Incentive, Json, IOUtils
 
 Rec == ndJsonDeserialize(IOEnv.TRACE)
-VARIABLES l, st, meta, lastClaim, cbs, wstart
-vars == <<l, st, meta, lastClaim, cbs, wstart>>
+VARIABLES l, st, meta, lastClaim, cbs, wstart, sh
+vars == <<l, st, meta, lastClaim, cbs, wstart, sh>>
 
 Unchanged(ev) == << <<"C11.rejected.unchanged", ev.dpre = ev.dpost>> >>
 Untouched(s, t) ==
@@ -16,6 +16,41 @@ NextCbs(ev, t) == IF ev.ev = "close" /\ ev.res = "ok" THEN TRUE ELSE cbs
 
 Ident(ev) == IF ev.args.lbl = "" THEN [k |-> "id", id |-> ev.args.id, label |-> ""]
              ELSE [k |-> "label", id |-> -1, label |-> ev.args.lbl]
+\* ---- the claim as Emission.tla walks it ----------------------------------------------------------------------
+\* sh : Seq([e, s]) - the shares the contract reported in epoch e when its snapshot was first seen (a later claim wipes
+\* the claimer's history, so later answers for the same epoch say nothing)
+ShAt(e, u) == LET c == SelectSeq(sh, LAMBDA r : r.e = e) IN IF c = <<>> THEN Zero ELSE c[1].s[u]
+NextSh(t) == IF t.snapshot /\ ~(\E i \in DOMAIN sh : sh[i].e = t.epoch) THEN Append(sh, [e |-> t.epoch, s |-> t.share]) ELSE sh
+\* all flows that have started, in storage order (as recorded before the claim), one walk each
+RECURSIVE WalkAll(_, _, _, _, _)
+WalkAll(flows, i, u, cur, res) ==
+  IF i > Len(flows) \/ (res # <<>> /\ ~res[Len(res)].ok) THEN res
+  ELSE LET f == flows[i] IN
+       IF f.start > cur THEN WalkAll(flows, i + 1, u, cur, res)
+       ELSE LET first == IF lastClaim[u] >= 0 THEN lastClaim[u] + 1 ELSE f.start
+                acc == ClaimWalk(f, first, cur, [e \in 0 .. cur |-> ShAt(e, u)],
+                                 [ok |-> TRUE, why |-> "", em |-> f.em, claimed |-> f.claimed, pays |-> <<>>, id |-> f.id, asset |-> f.asset])
+            IN WalkAll(flows, i + 1, u, cur, Append(res, acc))
+RECURSIVE SumPays(_)
+SumPays(ps) == IF ps = <<>> THEN Zero ELSE Head(ps).x ++ SumPays(Tail(ps))
+\* drift: the transcription of today's loop predicts the verdict, every flow's ledger and claimed amount, and what is paid
+\* (histories with a closed position are left out: known finding S9 makes the reported shares unreliable there)
+WalkChecks(ev, t, u) ==
+  IF cbs \/ (ev.res # "ok" /\ ev.out.why = "other") THEN <<>>
+  ELSE LET res == WalkAll(ev.pre.flows, 1, u, st.epoch, <<>>)
+           ok == res = <<>> \/ res[Len(res)].ok
+           why == IF ok THEN "" ELSE res[Len(res)].why
+           post(id) == LET c == SelectSeq(ev.out.flows, LAMBDA f : f.id = id) IN c[1]
+       IN << <<"drift.claim.walk.verdict", ok = (ev.res = "ok") /\ (ev.res # "ok" => why = ev.out.why)>> >>
+          \o (IF ev.res = "ok" /\ ok
+              THEN << <<"drift.claim.walk.ledger-and-claimed",
+                         \A i \in DOMAIN res : post(res[i].id).em = res[i].em /\ FlowById(t, res[i].id).claimed = res[i].claimed>>,
+                      <<"drift.claim.walk.paid",
+                         \A a \in Rewards :
+                           t.rw[u][a] -- st.rw[u][a] =
+                             SumPays([i \in DOMAIN res |-> [x |-> IF res[i].asset = a THEN SumPays(res[i].pays) ELSE Zero]])>> >>
+              ELSE <<>>)
+
 \* Beyond the listed properties (DESIGN.md): a claim by a staker is refused for good ("Invalid reward", a division by zero)
 \* in the situations MC_Emission.tla exhibits.  Reported under X. names: counted, never a violation.
 RefusalChecks(ev) ==
@@ -40,7 +75,7 @@ ShareChecksX(ev, t, lc) ==
            \A v \in Users : lc[v] = t.epoch \/ t.share[v] = FromRatio(w.aw[v], w.gw)>> >>
 EvChecks(ev, t) ==
   LET u == ev.actor IN
-  (IF ev.res # "ok" THEN Unchanged(ev) \o RefusalChecks(ev)
+  (IF ev.res # "ok" THEN Unchanged(ev) \o RefusalChecks(ev) \o (IF ev.ev = "claim" THEN WalkChecks(ev, t, u) ELSE <<>>)
    ELSE CASE ev.ev = "open" -> OpenChecks(st, t, u, ev.args.recv, ev.args.dur, ev.args.amt, FALSE)
           [] ev.ev = "expand" -> OpenChecks(st, t, u, ev.args.recv, ev.args.dur, ev.args.amt, TRUE)
           [] ev.ev = "close" -> CloseChecks(st, t, u, ev.args.dur)
@@ -50,6 +85,7 @@ EvChecks(ev, t) ==
           [] ev.ev = "closeflow" -> CloseFlowChecks(st, t, u, Ident(ev), ev.args.by = "owner")
           [] ev.ev = "claim" -> ClaimChecks(st, t, u, ev.pre.rewards.r, ev.pre.rewards.res = "ok", lastClaim[u])
                                 \o EmissionChecks(st, t, u, ev.out.pays, ev.out.flows, lastClaim[u])
+                                \o WalkChecks(ev, t, u)
           [] ev.ev \in {"snapshot", "newepoch"} -> Untouched(st, t)
           [] OTHER -> << <<"TRACE.unknown-event", FALSE>> >>)
   \o StateChecksC11(t) \o StateChecksC12(t) \o StateChecksC13(t) \o SharesChecks(t, NextCbs(ev, t))
@@ -60,15 +96,15 @@ Report(ev, bad) ==
   ELSE PrintT(ToJson([k |-> "BAD", run |-> ev.run, step |-> IF ev.ev = "reset" THEN -1 ELSE ev.step,
                       line |-> l, ev |-> ev.ev, bad |-> bad]))
 Init == /\ l = 1 /\ st = [lpbal |-> "0"] /\ meta = [fee |-> "0"] /\ lastClaim = [u \in Users |-> -1] /\ cbs = FALSE
-        /\ wstart = [aw |-> [u \in Users |-> Zero], gw |-> Zero, ep |-> -1]
+        /\ wstart = [aw |-> [u \in Users |-> Zero], gw |-> Zero, ep |-> -1] /\ sh = <<>>
 Next ==
   /\ l <= Len(Rec)
   /\ LET ev == Rec[l] IN
        IF ev.ev = "reset"
        THEN /\ st' = ev.obs /\ meta' = ev.cfg /\ lastClaim' = [u \in Users |-> -1] /\ cbs' = FALSE
-            /\ wstart' = [aw |-> ev.obs.aw, gw |-> Zero, ep |-> -1]
+            /\ wstart' = [aw |-> ev.obs.aw, gw |-> Zero, ep |-> -1] /\ sh' = <<>>
        ELSE /\ Report(ev, Failed(EvChecks(ev, ev.obs)))
-            /\ st' = ev.obs /\ meta' = meta /\ cbs' = NextCbs(ev, ev.obs) /\ wstart' = NextWstart(ev, ev.obs)
+            /\ st' = ev.obs /\ meta' = meta /\ cbs' = NextCbs(ev, ev.obs) /\ wstart' = NextWstart(ev, ev.obs) /\ sh' = NextSh(ev.obs)
             /\ lastClaim' = IF ev.ev = "claim" /\ ev.res = "ok" THEN [lastClaim EXCEPT ![ev.actor] = st.epoch] ELSE lastClaim
   /\ l' = l + 1
 Spec == Init /\ [][Next]_vars
